@@ -49,6 +49,7 @@ func rulesExtra4(c *Ctx) {
 	c.ruleR4()
 	c.ruleX7()
 	c.ruleL5()
+	c.ruleL5b()
 }
 
 // ---------------------------------------------------------------------------
